@@ -155,7 +155,15 @@ def gen_cases(rng, tier, boost=1):
   for k in range(n):
     stats = {}
     if k % 5 == 4:
-      nm = rng.choice(NEAR_MISSES) if rng.random() < 0.8 else gen_mixed_string(rng)
+      nm = rng.choice(NEAR_MISSES)
+      if rng.random() < 0.2:
+        for _ in range(20):   # pieces written without a blank may fuse into one well-formed literal: not a near-miss
+          cand = gen_mixed_string(rng)
+          try:
+            ast.literal_eval(cand)
+          except Exception:  # pylint: disable=broad-except
+            nm = cand
+            break
       if rng.random() < 0.3 and nm not in ('1, 2', '', '# only a comment', ')', '1]'):
         nm = '[' + gen_lit(rng, 3) + ', ' + nm + ']'   # the near-miss nested inside a well-formed container
       yield {'dom': 'parse', 'text': 'x.p = ' + nm + rng.choice(['', '\n']), 'kind': 'near', 'value_text': nm}
